@@ -221,7 +221,11 @@ def _occurrences(es):
     return occ
 
 
-def instantiate(hyps, goal, rounds=1, max_terms=12, extra=(), triggers=False):
+class _Preempted(Exception):
+    pass
+
+
+def instantiate(hyps, goal, rounds=1, max_terms=12, extra=(), triggers=False, stop=None):
     g, sk = skolemize(goal)
     pre = _snf(list(hyps) + [z3.Not(g)])
     qf, qs = _split_hyps(pre)
@@ -274,6 +278,8 @@ def instantiate(hyps, goal, rounds=1, max_terms=12, extra=(), triggers=False):
         new = []
         occ = _occurrences(goal_first + facts + inst_qf) if triggers else None
         for q in list(qs):
+            if stop is not None and stop():
+                raise _Preempted()         # the fresh-process query racing this instantiation has answered
             cands = [terms.get(str(q.var_sort(k)), []) for k in range(q.num_vars())]
             if triggers:
                 # trigger-directed candidates first: ground terms standing where the bound variable stands in the quantifier body
@@ -390,6 +396,53 @@ def _check(assertions, timeout_ms, tactic=None):
     return str(r), s
 
 
+class _CliJob:
+    """a fresh solver process on the SMT-LIB text of a query, started in the background (so that the in-process
+    instantiation and the fresh process race instead of queueing: whichever decides first wins)"""
+    def __init__(self, assertions, timeout_s, binary='z3-new'):
+        import tempfile, subprocess
+        sv = z3.Solver()
+        sv.add(assertions)
+        fd, self.path = tempfile.mkstemp(suffix='.smt2', prefix='pyvc_')
+        with os.fdopen(fd, 'w') as f:
+            f.write(sv.to_smt2())
+        self.t0 = time.time()
+        self.timeout_s = timeout_s
+        try:
+            self.p = subprocess.Popen([binary, '-T:%d' % max(1, int(timeout_s)), self.path], stdout=subprocess.PIPE, stderr=subprocess.DEVNULL, text=True)
+        except OSError:
+            self.p = None
+
+    def result(self, wait_s):
+        """'unsat' / 'sat' / 'unknown'; waits at most wait_s more seconds"""
+        import subprocess
+        if self.p is None:
+            return 'unknown'
+        try:
+            out, _ = self.p.communicate(timeout=max(0.05, wait_s))
+        except subprocess.TimeoutExpired:
+            self.kill()
+            return 'unknown'
+        self.kill()
+        first = ((out or '').strip().splitlines() or ['unknown'])[0].strip()
+        return first if first in ('unsat', 'sat') else 'unknown'
+
+    def done(self):
+        return self.p is None or self.p.poll() is not None
+
+    def kill(self):
+        if self.p is not None and self.p.poll() is None:
+            try:
+                self.p.kill()
+                self.p.wait(timeout=2)
+            except Exception:
+                pass
+        try:
+            os.unlink(self.path)
+        except OSError:
+            pass
+
+
 def _cli_check(assertions, timeout_s, binary='z3-new'):
     """the same query, serialised to SMT-LIB text and decided by a fresh solver process.  z3's answer on quantified queries
     depends on the term numbering of the process that built them (history of earlier units); a fresh process does not."""
@@ -444,14 +497,35 @@ def decide(axioms, vc, budget_s, pins=None, want=None, strategies=None, seed=0):
     hyps = list(axioms) + list(vc.hyps)
     res = {'status': 'unknown', 'by': None, 'tried': []}
     reserve = 0.25 * budget_s if pins else 0.0
-    for strat in strategies:
+    bg, bg_used, cli_answered = None, False, False          # fresh-process query racing the in-process instantiation
+    for si, strat in enumerate(strategies):
         left = budget_s - reserve - (time.time() - t0)
-        if left < 0.3:
+        if left < 0.3 and not (bg is not None and strat == 'cli'):
             break
         try:
+            if strat in ('inst', 'tinst') and bg is None and not bg_used and 'cli' in strategies[si + 1:] and left > 3:
+                bg_used = True
+                try:
+                    bg = _CliJob(hyps + [z3.Not(vc.goal)], max(5.0, min(left * 0.8, 15.0)))
+                except Exception:
+                    bg = None
             if strat in ('inst', 'inst2', 'inst3', 'tinst'):
                 rounds, mt = {'inst': (1, 10), 'inst2': (2, 12), 'inst3': (3, 10), 'tinst': (3, 8)}[strat]
-                facts = instantiate(hyps, vc.goal, rounds=rounds, max_terms=mt, extra=vc.hints, triggers=(strat == 'tinst'))
+                try:
+                    facts = instantiate(hyps, vc.goal, rounds=rounds, max_terms=mt, extra=vc.hints, triggers=(strat == 'tinst'),
+                                        stop=(bg.done if bg is not None else None))
+                except _Preempted:
+                    facts = None
+                if bg is not None and bg.done():
+                    rb = bg.result(0.2)
+                    bg = None
+                    res['tried'].append(('cli', rb, round(time.time() - t0, 3)))
+                    if rb == 'unsat':
+                        res.update(status='unsat', by='z3-cli')
+                        break
+                    cli_answered = True      # already answered: unknown
+                if facts is None:
+                    facts = instantiate(hyps, vc.goal, rounds=rounds, max_terms=mt, extra=vc.hints, triggers=(strat == 'tinst'))
                 r, s = _check(facts, min(left * 0.25, 6.0) * 1000 if strat in ('inst', 'tinst') else left * 1000 * 0.6)
                 if r != 'unsat' and any('*' in f.sexpr() for f in facts[:400]):
                     r2, s2 = _check(abstract_nl(facts), left * 1000 * 0.25)      # same instances with products made opaque
@@ -461,14 +535,21 @@ def decide(axioms, vc, budget_s, pins=None, want=None, strategies=None, seed=0):
                 if r == 'unsat':
                     res.update(status='unsat', by=strat)
                     break
+            elif strat == 'cli' and cli_answered and bg is None:
+                continue
             elif strat in ('cli', 'cli-old'):
-                r = _cli_check(hyps + [z3.Not(vc.goal)], max(5.0, min(left * 0.6, 15.0)), 'z3-new' if strat == 'cli' else '/usr/bin/z3')
+                if strat == 'cli' and bg is not None:
+                    # started before the instantiation stage: give it what is left of its own limit (at least 2 s, at most the budget)
+                    r = bg.result(max(2.0, min(bg.timeout_s - (time.time() - bg.t0), max(left, 0) * 0.6)))
+                    bg = None
+                else:
+                    r = _cli_check(hyps + [z3.Not(vc.goal)], max(5.0, min(left * 0.6, 15.0)), 'z3-new' if strat == 'cli' else '/usr/bin/z3')
                 res['tried'].append((strat, r, round(time.time() - t0, 3)))
                 if r == 'unsat':
                     res.update(status='unsat', by='z3-cli' if strat == 'cli' else 'z3-4.8-cli')
                     break
             elif strat in ('z3', 'z3quick'):
-                r, s = _check(hyps + [z3.Not(vc.goal)], min(left * 0.2, 2.0) * 1000 if strat == 'z3quick' else left * 1000 * 0.5)
+                r, s = _check(hyps + [z3.Not(vc.goal)], min(left * 0.25, 3.0) * 1000 if strat == 'z3quick' else left * 1000 * 0.5)
                 res['tried'].append((strat, r, round(time.time() - t0, 3)))
                 if r == 'unsat':
                     res.update(status='unsat', by='z3')
@@ -480,6 +561,8 @@ def decide(axioms, vc, budget_s, pins=None, want=None, strategies=None, seed=0):
                     break
         except z3.Z3Exception as ex:
             res['tried'].append((strat, 'error: %s' % ex, round(time.time() - t0, 3)))
+    if bg is not None:
+        bg.kill()
     if res['status'] != 'unsat' and pins:
         # definite refutation with pinned sizes
         for pin in pins:
